@@ -399,6 +399,14 @@ func (g *gen) execBuiltin(instr ssa.Instruction, b *ssa.Builtin, c *ssa.CallComm
 			g.vals[v] = n
 		}
 	case "delete":
+		if mt, ok := c.Args[0].Type().Underlying().(*types.Map); ok {
+			if _, present, ok := g.mapHeaps(st, mt); ok {
+				m, k := arg(0), arg(1)
+				ks := g.sorts.sortOf(mt.Key())
+				_, pn := mapHeapNames(mt)
+				g.setHeap(st, pn, "(Array Int (Array "+ks+" Bool))", app("store", present, m, app("store", app("select", present, m), k, "false")))
+			}
+		}
 	case "print", "println":
 	case "min", "max":
 		a, bb := arg(0), arg(1)
@@ -791,6 +799,15 @@ func (g *gen) modClauseOf(m *Clause, e *env) []modClause {
 	case *ast.IndexExpr:
 		// <slice expr>[*]: the elements of the backing array
 		if id, ok := n.Index.(*ast.Ident); ok && id.Name == "STAR" {
+			if mv := g.spec(e, n.X); mv.gt != nil && isMapType(mv.gt) {
+				mt := mv.gt.Underlying().(*types.Map)
+				if g.mapModelled(mt) {
+					vn, pn := mapHeapNames(mt)
+					mem := func(r string) string { return sEq(r, mv.t) }
+					return []modClause{{heap: vn, member: mem, text: m.Text}, {heap: pn, member: mem, text: m.Text}}
+				}
+				return nil
+			}
 			member, _ := g.objSetSliceBase(e, n.X)
 			sv := g.objType(e, n.X)
 			sl, ok := sv.Underlying().(*types.Slice)
